@@ -1,0 +1,66 @@
+//go:build verif
+
+// Package frame: machine-checked contracts (comment-only; read by /verif/govc).
+package frame
+
+//@ pred isEncType(t uint8) = t == 2 || t == 8 || t == 16 || t == 17
+//@ fun authLen(t uint8) int = isEncType(t) ? 16 : 64
+//@ fun be16(hi uint8, lo uint8) int = int(uint16(lo) | uint16(hi)<<8)
+
+// Layout of a live frame (data != nil): see the frame format comment in frame_v1.go.
+//@ pred layout(data []byte, mi int, ai int, xi int) = len(data) >= 68 && mi == 49 + int(data[48]) && ai == mi + 2 + be16(data[mi], data[mi+1]) && xi == ai + authLen(data[4]) && xi <= len(data) && len(data) >= mi + 19
+
+//@ type FrameV1
+//@   invariant layout [C02,C13,C17]: self.data != nil ==> layout(self.data, self.messageIndex, self.authIndex, self.appendixIndex)
+//@   invariant pooled [C17]: self.data != nil && self.pooledSlice != nil ==> base(self.data) == base(self.pooledSlice) && self.psDataOffset >= 0 && off(self.data) == off(self.pooledSlice) + self.psDataOffset && self.psDataOffset + cap(self.data) <= cap(self.pooledSlice) && self.psDataOffset + len(self.data) <= len(self.pooledSlice)
+
+//@ pool Builder.frameV1Pool
+//@   yields *FrameV1
+//@   invariant cleared [C17]: x.data == nil && x.pooledSlice == nil && x.messageIndex == 0 && x.authIndex == 0 && x.appendixIndex == 0 && x.psDataOffset == 0 && !x.src.IsValid() && !x.dst.IsValid() && x.recvLink == nil
+//@   invariant owner: x.builder == owner
+
+//@ func Builder.ParseFrameV1
+//@   requires b != nil
+//@   requires pooledSlice != nil ==> base(data) == base(pooledSlice) && dataOffset >= 0 && off(data) == off(pooledSlice) + dataOffset && dataOffset + cap(data) <= cap(pooledSlice) && dataOffset + len(data) <= len(pooledSlice)
+//@   ensures wf [C02,C13]: result1 == nil ==> result0 != nil && result0.data != nil && len(result0.data) == len(data) && base(result0.data) == base(data) && off(result0.data) == off(data)
+//@   ensures err-nil-frame: result1 != nil ==> result0 == nil
+//@   ensures fresh-fields [C17]: result1 == nil ==> result0.recvLink == nil && !result0.src.IsValid() && !result0.dst.IsValid() && result0.builder == b
+
+//@ pred zeroed(s []byte) = forall i int :: 0 <= i && i < cap(s) ==> s[0:cap(s)][i] == 0
+
+//@ pool Builder.fiveHBytePool
+//@   yields []byte
+//@   invariant size: len(x) == 600 && cap(x) == 600
+//@   invariant zero [C17]: zeroed(x)
+//@ pool Builder.fifteenHBytePool
+//@   yields []byte
+//@   invariant size: len(x) == 1600 && cap(x) == 1600
+//@   invariant zero [C17]: zeroed(x)
+//@ pool Builder.fiveKBytePool
+//@   yields []byte
+//@   invariant size: len(x) == 5100 && cap(x) == 5100
+//@   invariant zero [C17]: zeroed(x)
+//@ pool Builder.nineKBytePool
+//@   yields []byte
+//@   invariant size: len(x) == 9600 && cap(x) == 9600
+//@   invariant zero [C17]: zeroed(x)
+//@ pool Builder.sixtyFiveKBytePool
+//@   yields []byte
+//@   invariant size: len(x) == 65675 && cap(x) == 65675
+//@   invariant zero [C17]: zeroed(x)
+
+//@ func Builder.GetPooledSlice
+//@   requires b != nil
+//@   modifies nothing
+//@   ensures enough [C17]: minSize <= 65675 ==> pooledSlice != nil && len(pooledSlice) >= minSize && cap(pooledSlice) == len(pooledSlice) && off(pooledSlice) == 0
+//@   ensures toobig: minSize > 65675 ==> pooledSlice == nil
+//@   ensures fresh [C17]: pooledSlice != nil ==> fresh(base(pooledSlice)) && zeroed(pooledSlice)
+
+//@ func Builder.ReturnPooledSlice
+//@   requires b != nil
+//@   modifies pooledSlice[0:cap(pooledSlice)]
+//@   ensures wiped [C17]: zeroed(pooledSlice)
+
+//@ func FrameV1.ReturnToPool
+//@   requires f.builder == nil || f.dblReturnCheck == 0
+//@   ensures released [C13,C17]: old(f.builder) != nil ==> f.dblReturnCheck == 1 && f.data == nil && f.pooledSlice == nil
